@@ -10,6 +10,9 @@ mutually inverse at the values met, `untransform_vect ∘ transform_vect` and
 `transform_vect ∘ untransform_vect` are identities; 2-D inputs are mapped row by row.
 -/
 import GemseoVerif.Lemmas.C19Round
+import GemseoVerif.Lemmas.C19Inv
+import GemseoVerif.Analysis.C19Laws
+import GemseoVerif.Gen.C19Params
 
 namespace GV.C19
 open GV GV.C02
@@ -101,5 +104,311 @@ theorem untransform_transform (p : PS) (hwf : p.WF) (env : Env) (x : List Rat)
     (hx : x.length = p.ds.dimension) (h : RoundTripHyp p env true x) :
     ∃ y, p.transformVect env x = some y ∧ p.untransformVect env y = some x :=
   unnormalize_normalize_dist p hwf env true x hx h
+
+/-! ### Every history of admissible edits yields a well-formed space -/
+
+/-- Well-formedness (distinct names, uncertain variables are variables, one marginal per component)
+    is preserved by every edit that returns normally. -/
+theorem wf_preserved (env : Env) (tol : Rat) (p : PS) (op : Op) (hwf : p.WF)
+    (hok : (p.apply env tol op).2 = true) : (p.apply env tol op).1.WF :=
+  wf_apply env tol p op hwf hok
+
+/-- ... hence holds after every history of admissible edits starting from the empty space, and the
+    stored joint distribution is then the concatenation of the marginals of the uncertain
+    variables in the order of `uncertain_variables` (the columns of `compute_samples`). -/
+theorem wf_reachable (env : Env) (tol : Rat) (ops : List Op) (q : PS)
+    (h : PS.runAll env tol PS.empty ops = some q) :
+    q.WF ∧ (q.unc ≠ [] → q.joint = q.unc.flatMap q.margsOf) :=
+  ⟨wf_runAll env tol ops PS.empty q wf_empty h,
+   jointOk_runAll env tol ops PS.empty q wf_empty (fun hne => absurd rfl hne) h⟩
+
+/-! ## Part 2 — GEMSEO's parameter mappings denote the documented laws
+
+`Gen.*` is regenerated from /repo at every run; the conventions `Laws.sp*`, `Laws.std*`,
+`Laws.ot*` are the trusted transcription of SciPy's and OpenTURNS' parametrisations. -/
+
+open Laws Real
+
+/-- interfaced names and parameter names / arities, as passed to the libraries -/
+theorem interfaced_names (a b c : ℝ) (w : Bool) :
+    Gen.SPUniform.interfaced a b = "uniform" ∧ Gen.OTUniform.interfaced a b = "Uniform" ∧
+    Gen.SPNormal.interfaced a b = "norm" ∧ Gen.OTNormal.interfaced a b = "Normal" ∧
+    Gen.SPTriangular.interfaced a b c = "triang" ∧ Gen.OTTriangular.interfaced a b c = "Triangular" ∧
+    Gen.SPExponential.interfaced a b = "expon" ∧ Gen.OTExponential.interfaced a b = "Exponential" ∧
+    Gen.SPBeta.interfaced a b c c = "beta" ∧ Gen.OTBeta.interfaced a b c c = "Beta" ∧
+    Gen.SPWeibull.interfaced a b c w = (if w then "weibull_min" else "weibull_max") ∧
+    Gen.OTWeibull.interfaced a b c w = (if w then "WeibullMin" else "WeibullMax") ∧
+    Gen.SPLogNormal.interfaced a b c w = "lognorm" ∧ Gen.OTLogNormal.interfaced a b c w = "LogNormal" ∧
+    Gen.OTDirac.interfaced a = "Dirac" ∧
+    Gen.SPUniform.keys = ["loc", "scale"] ∧ Gen.SPNormal.keys = ["loc", "scale"] ∧
+    Gen.SPTriangular.keys = ["loc", "scale", "c"] ∧ Gen.SPExponential.keys = ["loc", "scale"] ∧
+    Gen.SPBeta.keys = ["a", "b", "loc", "scale"] ∧ Gen.SPWeibull.keys = ["loc", "scale", "c"] ∧
+    Gen.SPLogNormal.keys = ["s", "loc", "scale"] ∧
+    Gen.OTUniform.arity = 2 ∧ Gen.OTNormal.arity = 2 ∧ Gen.OTTriangular.arity = 3 ∧
+    Gen.OTExponential.arity = 2 ∧ Gen.OTBeta.arity = 4 ∧ Gen.OTWeibull.arity = 3 ∧
+    Gen.OTLogNormal.arity = 3 ∧ Gen.OTDirac.arity = 1 := by
+  cases w <;> simp [Gen.SPUniform.interfaced, Gen.OTUniform.interfaced, Gen.SPNormal.interfaced,
+    Gen.OTNormal.interfaced, Gen.SPTriangular.interfaced, Gen.OTTriangular.interfaced,
+    Gen.SPExponential.interfaced, Gen.OTExponential.interfaced, Gen.SPBeta.interfaced,
+    Gen.OTBeta.interfaced, Gen.SPWeibull.interfaced, Gen.OTWeibull.interfaced,
+    Gen.SPLogNormal.interfaced, Gen.OTLogNormal.interfaced, Gen.OTDirac.interfaced,
+    Gen.SPUniform.keys, Gen.SPNormal.keys, Gen.SPTriangular.keys, Gen.SPExponential.keys,
+    Gen.SPBeta.keys, Gen.SPWeibull.keys, Gen.SPLogNormal.keys, Gen.OTUniform.arity,
+    Gen.OTNormal.arity, Gen.OTTriangular.arity, Gen.OTExponential.arity, Gen.OTBeta.arity,
+    Gen.OTWeibull.arity, Gen.OTLogNormal.arity, Gen.OTDirac.arity]
+
+/-- the truncation / transformation options of the OpenTURNS classes are forwarded unchanged -/
+theorem ot_options_forwarded :
+    Gen.OTUniform.optionsForwarded = true ∧ Gen.OTNormal.optionsForwarded = true ∧
+    Gen.OTTriangular.optionsForwarded = true ∧ Gen.OTExponential.optionsForwarded = true ∧
+    Gen.OTBeta.optionsForwarded = true ∧ Gen.OTWeibull.optionsForwarded = true ∧
+    Gen.OTLogNormal.optionsForwarded = true ∧ Gen.OTDirac.optionsForwarded = true := by
+  simp [Gen.OTUniform.optionsForwarded, Gen.OTNormal.optionsForwarded,
+    Gen.OTTriangular.optionsForwarded, Gen.OTExponential.optionsForwarded,
+    Gen.OTBeta.optionsForwarded, Gen.OTWeibull.optionsForwarded,
+    Gen.OTLogNormal.optionsForwarded, Gen.OTDirac.optionsForwarded]
+
+/-- the documented default arguments are admissible -/
+theorem defaults_admissible :
+    Gen.SPUniform.default_minimum < Gen.SPUniform.default_maximum ∧
+    Gen.OTUniform.default_minimum < Gen.OTUniform.default_maximum ∧
+    Gen.SPTriangular.default_minimum < Gen.SPTriangular.default_mode ∧
+    Gen.SPTriangular.default_mode < Gen.SPTriangular.default_maximum ∧
+    Gen.OTTriangular.default_minimum < Gen.OTTriangular.default_mode ∧
+    Gen.OTTriangular.default_mode < Gen.OTTriangular.default_maximum ∧
+    0 < Gen.SPNormal.default_sigma ∧ 0 < Gen.OTNormal.default_sigma ∧
+    0 < Gen.SPExponential.default_rate ∧ 0 < Gen.OTExponential.default_rate ∧
+    0 < Gen.SPBeta.default_alpha ∧ 0 < Gen.SPBeta.default_beta ∧
+    Gen.SPBeta.default_minimum < Gen.SPBeta.default_maximum ∧
+    0 < Gen.OTBeta.default_alpha ∧ 0 < Gen.OTBeta.default_beta ∧
+    Gen.OTBeta.default_minimum < Gen.OTBeta.default_maximum ∧
+    0 < Gen.SPWeibull.default_scale ∧ 0 < Gen.SPWeibull.default_shape ∧
+    0 < Gen.OTWeibull.default_scale ∧ 0 < Gen.OTWeibull.default_shape ∧
+    Gen.SPLogNormal.default_location < Gen.SPLogNormal.default_mu ∧ 0 < Gen.SPLogNormal.default_sigma ∧
+    Gen.OTLogNormal.default_location < Gen.OTLogNormal.default_mu ∧ 0 < Gen.OTLogNormal.default_sigma := by
+  simp only [Gen.SPUniform.default_minimum, Gen.SPUniform.default_maximum,
+    Gen.OTUniform.default_minimum, Gen.OTUniform.default_maximum,
+    Gen.SPTriangular.default_minimum, Gen.SPTriangular.default_mode, Gen.SPTriangular.default_maximum,
+    Gen.OTTriangular.default_minimum, Gen.OTTriangular.default_mode, Gen.OTTriangular.default_maximum,
+    Gen.SPNormal.default_sigma, Gen.OTNormal.default_sigma, Gen.SPExponential.default_rate,
+    Gen.OTExponential.default_rate, Gen.SPBeta.default_alpha, Gen.SPBeta.default_beta,
+    Gen.SPBeta.default_minimum, Gen.SPBeta.default_maximum, Gen.OTBeta.default_alpha,
+    Gen.OTBeta.default_beta, Gen.OTBeta.default_minimum, Gen.OTBeta.default_maximum,
+    Gen.SPWeibull.default_scale, Gen.SPWeibull.default_shape, Gen.OTWeibull.default_scale,
+    Gen.OTWeibull.default_shape, Gen.SPLogNormal.default_location, Gen.SPLogNormal.default_mu,
+    Gen.SPLogNormal.default_sigma, Gen.OTLogNormal.default_location, Gen.OTLogNormal.default_mu,
+    Gen.OTLogNormal.default_sigma]
+  norm_num
+
+/-! #### Uniform -/
+
+theorem sp_uniform_same_law (a b x p : ℝ) :
+    spCdf stdUniformCdf (Gen.SPUniform.loc a b) (Gen.SPUniform.scale a b) x = uniformCdf a b x ∧
+    spPpf stdUniformPpf (Gen.SPUniform.loc a b) (Gen.SPUniform.scale a b) p = uniformIcdf a b p ∧
+    spMean (1 / 2) (Gen.SPUniform.loc a b) (Gen.SPUniform.scale a b) = (a + b) / 2 ∧
+    spStd (1 / sqrt 12) (Gen.SPUniform.scale a b) = (b - a) / sqrt 12 := by
+  refine ⟨rfl, ?_, ?_, ?_⟩
+  · simp [spPpf, stdUniformPpf, Gen.SPUniform.loc, Gen.SPUniform.scale, uniformIcdf]; ring
+  · simp only [spMean, Gen.SPUniform.loc, Gen.SPUniform.scale]; ring
+  · simp only [spStd, Gen.SPUniform.scale]; ring
+
+theorem ot_uniform_same_law (a b x : ℝ) :
+    otUniform (Gen.OTUniform.arg0 a b) (Gen.OTUniform.arg1 a b) x = uniformCdf a b x := rfl
+
+/-! #### Normal -/
+
+theorem sp_normal_same_law (Φ : ℝ → ℝ) (mu sigma x : ℝ) :
+    spCdf Φ (Gen.SPNormal.loc mu sigma) (Gen.SPNormal.scale mu sigma) x = normalCdf Φ mu sigma x ∧
+    spMean 0 (Gen.SPNormal.loc mu sigma) (Gen.SPNormal.scale mu sigma) = mu ∧
+    spStd 1 (Gen.SPNormal.scale mu sigma) = sigma := by
+  refine ⟨rfl, ?_, ?_⟩
+  · simp [spMean, Gen.SPNormal.loc]
+  · simp [spStd, Gen.SPNormal.scale]
+
+theorem ot_normal_same_law (Φ : ℝ → ℝ) (mu sigma x : ℝ) :
+    otNormal Φ (Gen.OTNormal.arg0 mu sigma) (Gen.OTNormal.arg1 mu sigma) x = normalCdf Φ mu sigma x :=
+  rfl
+
+/-! #### Exponential -/
+
+theorem sp_exponential_same_law (rate loc x p : ℝ) (hr : 0 < rate) :
+    spCdf stdExponCdf (Gen.SPExponential.loc rate loc) (Gen.SPExponential.scale rate loc) x =
+      exponentialCdf rate loc x ∧
+    spPpf stdExponPpf (Gen.SPExponential.loc rate loc) (Gen.SPExponential.scale rate loc) p =
+      exponentialIcdf rate loc p ∧
+    spMean 1 (Gen.SPExponential.loc rate loc) (Gen.SPExponential.scale rate loc) = loc + 1 / rate ∧
+    spStd 1 (Gen.SPExponential.scale rate loc) = 1 / rate := by
+  refine ⟨sp_exponential_eq rate loc x hr, ?_, ?_, ?_⟩
+  · simp only [spPpf, stdExponPpf, Gen.SPExponential.loc, Gen.SPExponential.scale, exponentialIcdf]
+    ring
+  · simp only [spMean, Gen.SPExponential.loc, Gen.SPExponential.scale]; ring
+  · simp only [spStd, Gen.SPExponential.scale]; ring
+
+theorem ot_exponential_same_law (rate loc x : ℝ) :
+    otExponential (Gen.OTExponential.arg0 rate loc) (Gen.OTExponential.arg1 rate loc) x =
+      exponentialCdf rate loc x := rfl
+
+/-! #### Triangular -/
+
+theorem sp_triangular_same_law (a m b x : ℝ) (ham : a < m) (hmb : m < b) :
+    spCdf (stdTriangCdf (Gen.SPTriangular.c a m b)) (Gen.SPTriangular.loc a m b)
+      (Gen.SPTriangular.scale a m b) x = triangularCdf a m b x := by
+  exact sp_triangular_eq a m b x ham hmb
+
+theorem sp_triangular_moments (a m b : ℝ) (hab : a < b) :
+    spMean ((1 + Gen.SPTriangular.c a m b) / 3) (Gen.SPTriangular.loc a m b)
+      (Gen.SPTriangular.scale a m b) = (a + m + b) / 3 := by
+  have hba : b - a ≠ 0 := (sub_pos.mpr hab).ne'
+  simp only [spMean, Gen.SPTriangular.c, Gen.SPTriangular.loc, Gen.SPTriangular.scale]
+  field_simp; ring
+
+theorem ot_triangular_same_law (a m b x : ℝ) :
+    otTriangular (Gen.OTTriangular.arg0 a m b) (Gen.OTTriangular.arg1 a m b)
+      (Gen.OTTriangular.arg2 a m b) x = triangularCdf a m b x := rfl
+
+/-! #### Beta on `[minimum, maximum]` -/
+
+theorem sp_beta_same_law (I : ℝ → ℝ → ℝ → ℝ) (al be a b x : ℝ) :
+    spCdf (I (Gen.SPBeta.a al be a b) (Gen.SPBeta.b al be a b)) (Gen.SPBeta.loc al be a b)
+      (Gen.SPBeta.scale al be a b) x = betaCdf I al be a b x ∧
+    spMean (al / (al + be)) (Gen.SPBeta.loc al be a b) (Gen.SPBeta.scale al be a b) =
+      a + (b - a) * al / (al + be) := by
+  refine ⟨rfl, ?_⟩
+  simp only [spMean, Gen.SPBeta.loc, Gen.SPBeta.scale]; ring
+
+theorem ot_beta_same_law (I : ℝ → ℝ → ℝ → ℝ) (al be a b x : ℝ) :
+    otBeta I (Gen.OTBeta.arg0 al be a b) (Gen.OTBeta.arg1 al be a b) (Gen.OTBeta.arg2 al be a b)
+      (Gen.OTBeta.arg3 al be a b) x = betaCdf I al be a b x := rfl
+
+/-! #### Weibull (minimum and maximum extreme value) -/
+
+theorem sp_weibull_same_law (location scale shape x : ℝ) (hs : 0 < scale) :
+    spCdf (stdWeibullMinCdf (Gen.SPWeibull.c location scale shape true))
+      (Gen.SPWeibull.loc location scale shape true) (Gen.SPWeibull.scale location scale shape true) x
+      = weibullMinCdf location scale shape x ∧
+    spCdf (stdWeibullMaxCdf (Gen.SPWeibull.c location scale shape false))
+      (Gen.SPWeibull.loc location scale shape false) (Gen.SPWeibull.scale location scale shape false) x
+      = weibullMaxCdf location scale shape x := by
+  exact ⟨sp_weibull_min_eq location scale shape x hs, sp_weibull_max_eq location scale shape x hs⟩
+
+theorem ot_weibull_same_law (location scale shape x : ℝ) :
+    otWeibullMin (Gen.OTWeibull.arg0 location scale shape true)
+      (Gen.OTWeibull.arg1 location scale shape true) (Gen.OTWeibull.arg2 location scale shape true) x
+      = weibullMinCdf location scale shape x ∧
+    otWeibullMax (Gen.OTWeibull.arg0 location scale shape false)
+      (Gen.OTWeibull.arg1 location scale shape false) (Gen.OTWeibull.arg2 location scale shape false) x
+      = weibullMaxCdf location scale shape x := ⟨rfl, rfl⟩
+
+/-! #### Log-normal -/
+
+/-- `set_log = True`: `mu`, `sigma` are the mean and standard deviation of the logarithm. -/
+theorem sp_lognormal_log_same_law (Φ : ℝ → ℝ) (mu sigma location x : ℝ) :
+    spCdf (stdLognormCdf Φ (Gen.SPLogNormal.s mu sigma location true))
+      (Gen.SPLogNormal.loc mu sigma location true) (Gen.SPLogNormal.scale mu sigma location true) x
+      = logNormalCdf Φ mu sigma location x := by
+  exact sp_lognormal_eq Φ mu sigma location x
+
+theorem ot_lognormal_log_same_law (Φ : ℝ → ℝ) (mu sigma location x : ℝ) :
+    otLogNormal Φ (Gen.OTLogNormal.arg0 mu sigma location true)
+      (Gen.OTLogNormal.arg1 mu sigma location true) (Gen.OTLogNormal.arg2 mu sigma location true) x
+      = logNormalCdf Φ mu sigma location x := by
+  simp [otLogNormal, Gen.OTLogNormal.arg0, Gen.OTLogNormal.arg1, Gen.OTLogNormal.arg2, logNormalCdf]
+
+/-- `set_log = False`: `mu`, `sigma` are the mean and standard deviation of the variable itself.
+    The log-parameters computed by GEMSEO (`compute_mu_l_and_sigma_l`, inlined by the translator)
+    are those of the shifted log-normal law with exactly that mean and that variance, and the
+    SciPy and OpenTURNS classes receive the same ones. -/
+theorem lognormal_moment_matching (mu sigma location : ℝ) (hm : location < mu) :
+    let muL := Gen.OTLogNormal.arg0 mu sigma location false
+    let sL := Gen.OTLogNormal.arg1 mu sigma location false
+    location + exp (muL + sL ^ 2 / 2) = mu ∧
+    (exp (sL ^ 2) - 1) * exp (2 * muL + sL ^ 2) = sigma ^ 2 ∧
+    Gen.SPLogNormal.s mu sigma location false = sL ∧
+    Gen.SPLogNormal.scale mu sigma location false = exp muL ∧
+    Gen.SPLogNormal.loc mu sigma location false = location ∧
+    Gen.OTLogNormal.arg2 mu sigma location false = location := by
+  intro muL sL
+  have hmpos : 0 < mu - location := sub_pos.mpr hm
+  set A := sqrt ((sigma / (mu - location)) ^ 2 + 1) with hA
+  have hA1 : 1 ≤ (sigma / (mu - location)) ^ 2 + 1 := by nlinarith [sq_nonneg (sigma / (mu - location))]
+  have hApos : 0 < A := sqrt_pos.mpr (by linarith)
+  have hAsq : A ^ 2 = (sigma / (mu - location)) ^ 2 + 1 := sq_sqrt (by linarith)
+  have hAge : 1 ≤ A := by
+    rw [hA]; calc (1 : ℝ) = sqrt 1 := sqrt_one.symm
+      _ ≤ sqrt ((sigma / (mu - location)) ^ 2 + 1) := sqrt_le_sqrt hA1
+  have hlogA : 0 ≤ log A := log_nonneg hAge
+  have hmuL : muL = log (mu - location) - log A := by
+    simp only [muL, Gen.OTLogNormal.arg0, Bool.false_eq_true, if_false]
+    rw [← hA, log_div hmpos.ne' hApos.ne']
+  have hsL2 : sL ^ 2 = 2 * log A := by
+    simp only [sL, Gen.OTLogNormal.arg1, Bool.false_eq_true, if_false]
+    rw [← hA, log_div hmpos.ne' hApos.ne', sq_sqrt (by linarith)]
+    ring
+  refine ⟨?_, ?_, ?_, ?_, rfl, rfl⟩
+  · rw [hmuL, hsL2]
+    have : log (mu - location) - log A + 2 * log A / 2 = log (mu - location) := by ring
+    rw [this, exp_log hmpos]; ring
+  · rw [hmuL, hsL2]
+    have e1 : exp (2 * log A) = A ^ 2 := by
+      rw [two_mul, exp_add, exp_log hApos]; ring
+    have e2 : exp (2 * (log (mu - location) - log A) + 2 * log A) = (mu - location) ^ 2 := by
+      have : 2 * (log (mu - location) - log A) + 2 * log A = log (mu - location) + log (mu - location) := by
+        ring
+      rw [this, exp_add, exp_log hmpos]; ring
+    rw [e1, e2, hAsq]
+    field_simp; ring
+  · simp only [sL, Gen.SPLogNormal.s, Gen.OTLogNormal.arg1]
+  · simp only [muL, Gen.SPLogNormal.scale, Gen.OTLogNormal.arg0]
+
+/-! #### Dirac -/
+
+theorem ot_dirac_same_law (v x : ℝ) : otDirac (Gen.OTDirac.arg0 v) x = diracCdf v x := rfl
+
+/-! ## Part 3 — closed-form laws (re-exported from Analysis/C19Laws.lean)
+
+CDF and inverse CDF are mutual inverses, the inverse CDF maps the unit interval into the support
+(samples obtained by inverse transform lie in the support), the moments have their closed forms. -/
+
+theorem uniform_law (a b : ℝ) (h : a < b) :
+    (∀ p, 0 ≤ p → p ≤ 1 → uniformCdf a b (uniformIcdf a b p) = p) ∧
+    (∀ x, a ≤ x → x ≤ b → uniformIcdf a b (uniformCdf a b x) = x) ∧
+    (∀ p, 0 ≤ p → p ≤ 1 → a ≤ uniformIcdf a b p ∧ uniformIcdf a b p ≤ b) ∧
+    (∫ x in a..b, x * (1 / (b - a))) = (a + b) / 2 ∧
+    (∫ x in a..b, (x - (a + b) / 2) ^ 2 * (1 / (b - a))) = (b - a) ^ 2 / 12 ∧
+    sqrt ((b - a) ^ 2 / 12) = (b - a) / sqrt 12 :=
+  ⟨fun p h0 h1 => uniform_cdf_icdf a b p h h0 h1, fun x h0 h1 => uniform_icdf_cdf a b x h h0 h1,
+   fun p h0 h1 => uniform_icdf_mem_support a b p h.le h0 h1, uniform_mean a b h,
+   uniform_variance a b h, uniform_std a b h⟩
+
+theorem triangular_law (a m b : ℝ) (ham : a < m) (hmb : m < b) :
+    (∀ p, 0 ≤ p → p ≤ 1 → triangularCdf a m b (triangularIcdf a m b p) = p) ∧
+    (∀ x, a ≤ x → x ≤ b → triangularIcdf a m b (triangularCdf a m b x) = x) ∧
+    (∀ p, 0 ≤ p → p ≤ 1 → a ≤ triangularIcdf a m b p ∧ triangularIcdf a m b p ≤ b) ∧
+    ((∫ x in a..m, x * (2 * (x - a) / ((b - a) * (m - a)))) +
+      (∫ x in m..b, x * (2 * (b - x) / ((b - a) * (b - m)))) = (a + m + b) / 3) ∧
+    ((∫ x in a..m, (x - (a + m + b) / 3) ^ 2 * (2 * (x - a) / ((b - a) * (m - a)))) +
+      (∫ x in m..b, (x - (a + m + b) / 3) ^ 2 * (2 * (b - x) / ((b - a) * (b - m)))) =
+      (a ^ 2 + m ^ 2 + b ^ 2 - a * m - a * b - m * b) / 18) :=
+  ⟨fun p h0 h1 => triangular_cdf_icdf a m b p ham hmb h0 h1,
+   fun x h0 h1 => triangular_icdf_cdf a m b x ham hmb h0 h1,
+   fun p h0 h1 => triangular_icdf_mem_support a m b p ham.le hmb.le h0 h1,
+   triangular_mean a m b ham hmb, triangular_variance a m b ham hmb⟩
+
+theorem exponential_law (rate loc : ℝ) (hr : 0 < rate) :
+    (∀ p, 0 ≤ p → p < 1 → exponentialCdf rate loc (exponentialIcdf rate loc p) = p) ∧
+    (∀ x, loc ≤ x → exponentialIcdf rate loc (exponentialCdf rate loc x) = x) ∧
+    (∀ p, 0 ≤ p → p < 1 → loc ≤ exponentialIcdf rate loc p) ∧
+    (∫ x in Set.Ioi (0 : ℝ), x * exp (-x)) = 1 ∧
+    (∫ x in Set.Ioi (0 : ℝ), x ^ 2 * exp (-x)) = 2 :=
+  ⟨fun p h0 h1 => exponential_cdf_icdf rate loc p hr h0 h1,
+   fun x h => exponential_icdf_cdf rate loc x hr h,
+   fun p h0 h1 => exponential_icdf_mem_support rate loc p hr h0 h1,
+   std_exponential_mean, std_exponential_second_moment⟩
+
+/-- samples obtained through a monotone inverse CDF lie in the support -/
+theorem samples_in_support (Q : ℝ → ℝ) (lb ub : ℝ) (hmono : MonotoneOn Q (Set.Icc 0 1))
+    (h0 : Q 0 = lb) (h1 : Q 1 = ub) (u : ℝ) (hu : u ∈ Set.Icc (0 : ℝ) 1) :
+    lb ≤ Q u ∧ Q u ≤ ub :=
+  icdf_image_in_support Q lb ub hmono h0 h1 u hu
 
 end GV.C19
